@@ -8,7 +8,7 @@ set -e
 . $MC/par.sh
 H=$VERIF/harness/c10
 HC="-std=c++20 -O2 -g -I$REPO -I$MC"
-par g++ -std=c++17 -O2 -c -I$MC $MC/mc.cpp -o $BUILD/mc.o
+par g++ -std=c++20 -O2 -c -I$MC $MC/mc.cpp -o $BUILD/mc.o
 par g++ -c $HC -DC10_ASSERT_BUILD=1 $H/c10_heap.cpp -o $BUILD/heap_assert.o
 par g++ -c $HC -DC10_ASSERT_BUILD=0 $H/c10_heap.cpp -o $BUILD/heap_ndebug.o
 par g++ -c -std=c++20 -O1 -g -I$REPO $REPO/igris/sync/syslock_mutex.cpp -o $BUILD/syslock.o
@@ -21,7 +21,7 @@ done
 # pools (ASan; zones are exactly-sized heap blocks)
 # Full build: names one private member (igris::pool::head, for the bounded free-list walk) -> -fno-access-control.
 # If that does not compile (a private member was renamed: not a property violation), fall back to the public API only.
-PC="-std=c++17 -O1 -g -fsanitize=address -fno-omit-frame-pointer -I$REPO -I$MC"
+PC="-std=c++20 -O1 -g -fsanitize=address -fno-omit-frame-pointer -I$REPO -I$MC"
 pools_obj() { # $1 = object name, $2.. = extra flags
   local o=$1; shift
   if [ -z "$C10_FORCE_PUBLIC_ONLY" ] && g++ -c $PC "$@" -fno-access-control $H/c10_pools.cpp -o $BUILD/$o.o 2> $BUILD/${o}_full.err; then return 0; fi
